@@ -20,6 +20,8 @@ struct Cfg {
     step: Duration,
     attempts: u32,
     cap: Option<Duration>,
+    /// builder call order / decoy calls (0 = one call per setter: attempts, step, cap)
+    order: u32,
 }
 
 const NANOS: u128 = 1_000_000_000;
@@ -62,9 +64,35 @@ fn build(cfg: &Cfg) -> BackoffStrategy {
         Law::Linear => BackoffStrategy::linear(),
         Law::Exponential(f) => BackoffStrategy::exponential(f),
     };
-    b = b.with_max_attempts(cfg.attempts).with_step(cfg.step);
-    if let Some(c) = cfg.cap {
-        b = b.with_max_duration(c);
+    // the configuration is what the *last* call of each setter says; `order` varies the order of the calls and
+    // inserts earlier calls with other values (a strategy derived from a shared base and then adjusted)
+    let decoys = [Duration::from_millis(3), Duration::from_secs(2), Duration::from_nanos(7), Duration::from_secs(86_400)];
+    let o = cfg.order;
+    if o & 1 != 0 {
+        b = b.with_step(decoys[(o >> 4) as usize % 4]);
+    }
+    if o & 2 != 0 && cfg.cap.is_some() {
+        b = b.with_max_duration(decoys[(o >> 6) as usize % 4]);
+    }
+    if o & 4 != 0 {
+        b = b.with_max_attempts((o >> 8) % 9);
+    }
+    if o & 8 != 0 {
+        // cap first, then step
+        if let Some(c) = cfg.cap {
+            b = b.with_max_duration(c);
+        }
+        b = b.with_max_attempts(cfg.attempts).with_step(cfg.step);
+        if let Some(c) = cfg.cap {
+            if o & 16 != 0 {
+                b = b.with_max_duration(c);
+            }
+        }
+    } else {
+        b = b.with_max_attempts(cfg.attempts).with_step(cfg.step);
+        if let Some(c) = cfg.cap {
+            b = b.with_max_duration(c);
+        }
     }
     b
 }
@@ -169,7 +197,7 @@ fn check(cfg: &Cfg, max_iter: u32) -> Result<u32, (String, String)> {
 
 fn cfg_json(c: &Cfg) -> serde_json::Value {
     json!({"law": format!("{:?}", c.law), "step_ns": c.step.as_nanos().to_string(), "attempts": c.attempts,
-           "max_duration_ns": c.cap.map(|d| d.as_nanos().to_string())})
+           "max_duration_ns": c.cap.map(|d| d.as_nanos().to_string()), "builder_call_order": c.order})
 }
 
 pub fn run(rep: &mut StageReport, tier: &str, seed: u64, profile: &str) {
@@ -190,13 +218,20 @@ pub fn run(rep: &mut StageReport, tier: &str, seed: u64, profile: &str) {
     for s in steps {
         for a in attempts {
             for c in caps {
-                cfgs.push(Cfg { law: Law::Constant, step: s, attempts: a, cap: c });
-                cfgs.push(Cfg { law: Law::Linear, step: s, attempts: a, cap: c });
+                cfgs.push(Cfg { law: Law::Constant, step: s, attempts: a, cap: c, order: 0 });
+                cfgs.push(Cfg { law: Law::Linear, step: s, attempts: a, cap: c, order: 0 });
                 for f in factors {
-                    cfgs.push(Cfg { law: Law::Exponential(f), step: s, attempts: a, cap: c });
+                    cfgs.push(Cfg { law: Law::Exponential(f), step: s, attempts: a, cap: c, order: 0 });
                 }
             }
         }
+    }
+    // the same grid again with setter calls in other orders / preceded by calls with other values
+    let base: Vec<Cfg> = cfgs.iter().filter(|c| c.attempts <= 66 && c.attempts > 0).cloned().collect();
+    for (i, c) in base.iter().enumerate() {
+        let mut c2 = c.clone();
+        c2.order = [0b01011u32, 0b11010, 0b00111 | (1 << 6), 0b11111 | (3 << 6) | (2 << 4)][i % 4];
+        cfgs.push(c2);
     }
     let grid = cfgs.len();
     let n_random = if tier == "thorough" { 3_000_000 } else { 60_000 };
@@ -231,7 +266,8 @@ pub fn run(rep: &mut StageReport, tier: &str, seed: u64, profile: &str) {
             1 => Some(Duration::from_millis(rng.below(1_000_000))),
             _ => Some(Duration::new(rng.next_u64() >> rng.below(64), 0)),
         };
-        cfgs.push(Cfg { law, step, attempts, cap });
+        let order = if rng.pct(50) { 0 } else { rng.below(1 << 12) as u32 };
+        cfgs.push(Cfg { law, step, attempts, cap, order });
     }
     let mut attempts_checked = 0u64;
     for (i, c) in cfgs.iter().enumerate() {
